@@ -5,6 +5,7 @@ import (
 	"reflect"
 	"runtime"
 	"sort"
+	"unsafe"
 )
 
 // VC is a vector clock indexed by thread id.
@@ -183,6 +184,35 @@ func W[T any](p *T, name string) *T {
 		e.access(uintptr(ptrOf(p)), name, true, p)
 	}
 	return p
+}
+
+// AtomicOp is called by the sync/atomic replacement before every atomic operation: a scheduling
+// point, then the happens-before edges of the operation on the object at addr (acquire for loads,
+// release for stores, both for read-modify-write).
+func AtomicOp(addr unsafe.Pointer, acquire, release bool) {
+	e := cur
+	if e == nil || e.aborting || e.running == nil {
+		return
+	}
+	yield(&Op{Kind: "atomic"})
+	if e.aborting {
+		return
+	}
+	if e.atomics == nil {
+		e.atomics = map[uintptr]*SyncVC{}
+	}
+	s := e.atomics[uintptr(addr)]
+	if s == nil {
+		s = &SyncVC{}
+		e.atomics[uintptr(addr)] = s
+		e.keep = append(e.keep, addr) // retain: the address is the identity
+	}
+	if acquire {
+		s.Acquire()
+	}
+	if release {
+		s.Release()
+	}
 }
 
 // VarR / VarW: accesses to a local variable shared with a closure that may run elsewhere. They are
